@@ -38,6 +38,16 @@ Theorem C07_no_rgb_one_param : forall cp c, cap_rgb cp = false -> zlen (col_para
 Proof. intros cp c H. unfold col_params. rewrite H. apply fallback_params_len. Qed.
 Print Assumptions C07_no_rgb_one_param.
 
+(* Width method: with Unicode core or explicit width advertised graphemes are measured the
+   Unicode way, with the kitty quirk without ZWJ joining, otherwise per code point - whatever
+   the three flags are (the definition is the specification here; the differential run compares
+   RenderedWidth on real instances with the library's gwidth under the selected method). *)
+Theorem C07_width_method_matches : forall u e n,
+  width_method u e n = (if u || e then UnicodeStd else if n then NoZWJ else Wcwidth) /\
+  (width_method u e n = UnicodeStd <-> u || e = true).
+Proof. intros u e n. unfold width_method. split; [reflexivity|]. destruct (u || e); [tauto|]. destruct n; split; congruence. Qed.
+Print Assumptions C07_width_method_matches.
+
 (* non-vacuity: an RGB colour that is not a palette entry *)
 Example C07_example : is_rgb (rgb_color 1 0 0) = true /\ as_index (rgb_color 1 0 0) = index_color 16.
 Proof. vm_compute. split; reflexivity. Qed.
